@@ -161,7 +161,7 @@ def run(tier, seed, replay=None):
         else:
             kl.append("dbckeys - 0")
     mk = C.run_lines([C.MODELRUN], kl, shards=C.NPROC, timeout=1500)
-    paths = {"E": "eager parse", "R": "parse of the library's own output", "L": "lazy iterator", "G": "lazy random access", "M": "memory-mapped file", "P": "parallel parser"}
+    paths = {"E": "eager parse", "R": "parse of the library's own output", "L": "lazy iterator", "G": "lazy random access", "M": "memory-mapped file", "P": "parallel parser", "C": "record set with cached strings"}
     agree = 0
     for (f, k, rc), fh, o, m, keys, mko, alien in zip(tabs, files, io, mr, kqs, mk, foreign):
         nontriv = any(t == "str" or nn or WIDTH[t] < 4 for t, nn in f) and bool(rc)
